@@ -1,5 +1,7 @@
 import EpgVerif.Model.CF
 import EpgVerif.Model.Bloch
+import EpgVerif.Model.DiffSM
+import EpgVerif.Model.Jet
 /-
   Line-protocol driver over the executable model at `K := CF` (DESIGN Appendix A).
   One request per line; floats travel as the decimal of their IEEE-754 bits.
@@ -12,11 +14,18 @@ def bits (x : Float) : String := toString x.toBits.toNat
 def showPS (p : PS CF) : String :=
   s!"{bits p.fp.re} {bits p.fp.im} {bits p.fm.re} {bits p.fm.im} {bits p.z.re} {bits p.z.im}"
 
+abbrev JC := Jet CF
+
 structure DState where
   opts : Opts := {}
   sm : SM CF := SM.init (1 : CF)
   sm0 : SM CF := SM.init (1 : CF)
   ops : Array (Op CF) := #[]
+  -- differentiation: model bookkeeping state, jet specification state, variable names
+  ds : DS CF := ⟨SM.init (1 : CF), [], []⟩
+  dsm : DS CF := ⟨SM.init (1 : CF), [], []⟩   -- statement-by-statement mirror of the Python code
+  js : SM JC := SM.init (1 : JC)
+  vars : Array String := #[]
 
 def intOfTok (t : String) : Int := t.toInt!
 
@@ -35,6 +44,83 @@ def parseOp (toks : List String) : Option (Op CF) :=
   | ["PD", pd, r] => some (.PD (cOfTok pd) (r == "1"))
   | ["WAIT"] => some .Wait
   | _ => none
+
+/-- declaration segments `v:p:c ...`, `a,b:p:c ...`, flag -/
+def parseDecl (segs : List (List String)) : Decl CF :=
+  let o1toks := segs.getD 0 []
+  let o2toks := segs.getD 1 []
+  let auto := (segs.getD 2 []).getD 0 "1" == "1"
+  let add1 (acc : List (String × List (String × CF))) (t : String) :=
+    match t.splitOn ":" with
+    | [v, p, c] =>
+      let entry : List (String × CF) := if p == "" then [] else [(p, cOfTok c)]
+      if acc.any (·.1 == v) then acc.map (fun e => if e.1 == v then (v, e.2 ++ entry) else e)
+      else acc ++ [(v, entry)]
+    | _ => acc
+  let add2 (acc : List ((String × String) × List (String × CF))) (t : String) :=
+    match t.splitOn ":" with
+    | [vv, p, c] =>
+      match vv.splitOn "," with
+      | [a, b] =>
+        let entry : List (String × CF) := if p == "" then [] else [(p, cOfTok c)]
+        if acc.any (·.1 == (a, b)) then acc.map (fun e => if e.1 == (a, b) then ((a, b), e.2 ++ entry) else e)
+        else acc ++ [((a, b), entry)]
+      | _ => acc
+    | _ => acc
+  { order1 := o1toks.foldl add1 [], order2 := o2toks.foldl add2 [], auto := auto }
+
+def splitSegs (toks : List String) : List (List String) :=
+  toks.foldl (fun (acc : List (List String)) t =>
+    if t == ";" then acc ++ [[]]
+    else match acc.reverse with
+      | [] => [[t]]
+      | last :: rest => (rest.reverse) ++ [last ++ [t]]) [[]]
+
+/-- jet of a parameter: value + linear and quadratic coefficients of the declaration -/
+def jetParam (vars : Array String) (dc : Decl CF) (p : String) (v : CF) : JC :=
+  let c1 (i : Nat) : CF := ((Diff.lookup dc.order1 (vars.getD i "")).bind (fun ps => Diff.lookup ps p)).getD 0
+  let c2 (i j : Nat) : CF :=
+    let key := Diff.pair (vars.getD i "") (vars.getD j "")
+    ((Diff.lookup dc.order2 key).bind (fun ps => Diff.lookup ps p)).getD 0
+  Jet.build vars.size v c1 c2
+
+def liftOp (vars : Array String) (dc : Decl CF) : Op CF → Op JC
+  | .T a p => .T (jetParam vars dc "alpha" a) (jetParam vars dc "phi" p)
+  | .Phi p => .Phi (jetParam vars dc "phi" p)
+  | .E a b c d => .E (jetParam vars dc "tau" a) (jetParam vars dc "T1" b) (jetParam vars dc "T2" c) (jetParam vars dc "g" d)
+  | .P a b => .P (jetParam vars dc "tau" a) (jetParam vars dc "g" b)
+  | .R a b c => .R (jetParam vars dc "rT" a) (jetParam vars dc "rL" b) (c.map (jetParam vars dc "r0"))
+  | .S k n => .S k n
+  | .Spoiler => .Spoiler
+  | .Reset => .Reset
+  | .PD pd r => .PD (Jet.const pd) r
+  | .Wait => .Wait
+
+def liftSM (s : SM CF) : SM JC :=
+  SM.mk' s.n (fun k => let p := s.get k; ⟨Jet.const p.fp, Jet.const p.fm, Jet.const p.z⟩)
+    (fun k => let p := s.geq k; ⟨Jet.const p.fp, Jet.const p.fm, Jet.const p.z⟩)
+
+def rowsOf (n : Nat) (f : Int → PS CF) : String :=
+  " ".intercalate ((List.range (2 * n + 1)).map (fun (i : Nat) => showPS (f ((i : Int) - n))))
+
+def dumpDiffOf (ds : DS CF) : List String :=
+  let l1 := ds.order1.map (fun e => s!"k {e.1} {e.2.n} " ++ rowsOf e.2.n e.2.get)
+  let l2 := ds.order2.map (fun e => s!"k {e.1.1} {e.1.2} {e.2.n} " ++ rowsOf e.2.n e.2.get)
+  [s!"d1 {l1.length}"] ++ l1 ++ [s!"d2 {l2.length}"] ++ l2
+
+/-- mirror model first, accumulation-form model second -/
+def dumpDiff (d : DState) : List String := dumpDiffOf d.dsm ++ dumpDiffOf d.ds
+
+def dumpJets (d : DState) : List String :=
+  let n := d.js.n
+  let nv := d.vars.size
+  let l1 := (List.range nv).map (fun i =>
+    s!"k {d.vars.getD i ""} {n} " ++ rowsOf n (fun k => let p := d.js.get k; ⟨p.fp.g1 i, p.fm.g1 i, p.z.g1 i⟩))
+  let l2 := (List.range nv).flatMap (fun i => (List.range nv).map (fun j =>
+    s!"k {d.vars.getD i ""} {d.vars.getD j ""} {n} " ++
+      rowsOf n (fun k => let p := d.js.get k; ⟨p.fp.g2 i j, p.fm.g2 i j, p.z.g2 i j⟩)))
+  let l0 := s!"j0 {n} " ++ rowsOf n (fun k => let p := d.js.get k; ⟨p.fp.v, p.fm.v, p.z.v⟩)
+  [l0, s!"j1 {l1.length}"] ++ l1 ++ [s!"j2 {l2.length}"] ++ l2
 
 def dumpSM (s : SM CF) : String :=
   let rows := (List.range (2 * s.n + 1)).map (fun (i : Nat) => showPS (s.get ((i : Int) - s.n)))
@@ -64,15 +150,16 @@ def blochDump (d : DState) (N : Nat) (kmax : Nat) : String :=
     showPS (PS.smul ⟨1 / N.toFloat, 0⟩ acc))
   s!"bl {kmax} " ++ " ".intercalate rows
 
-def step (d : DState) (line : String) : DState × Option String :=
+def step (d : DState) (line : String) : DState × List String :=
   let toks := (line.trimAscii.toString.splitOn " ").filter (· ≠ "")
   match toks with
-  | [] => (d, none)
-  | ["case"] => ({}, none)
-  | ["opt", "max_nstate", n] => ({ d with opts := { d.opts with maxNstate := some n.toNat! } }, none)
+  | [] => (d, [])
+  | ["case"] => ({}, [])
+  | ["opt", "max_nstate", n] => ({ d with opts := { d.opts with maxNstate := some n.toNat! } }, [])
+  | "vars" :: vs => ({ d with vars := vs.toArray }, [])
   | ["init", pd] =>
       let s := SM.init (cOfTok pd)
-      ({ d with sm := s, sm0 := s, ops := #[] }, none)
+      ({ d with sm := s, sm0 := s, ops := #[], ds := ⟨s, [], []⟩, dsm := ⟨s, [], []⟩, js := liftSM s }, [])
   | "initst" :: n :: pd :: vals =>
       let n := n.toNat!
       let v := vals.toArray.map fOfTok
@@ -81,22 +168,28 @@ def step (d : DState) (line : String) : DState × Option String :=
         ⟨⟨v.getD i 0, v.getD (i+1) 0⟩, ⟨v.getD (i+2) 0, v.getD (i+3) 0⟩, ⟨v.getD (i+4) 0, v.getD (i+5) 0⟩⟩
       let e : Int → PS CF := fun k => if k = 0 then ⟨0, 0, cOfTok pd⟩ else 0
       let s := SM.mk' n f e
-      ({ d with sm := s, sm0 := s, ops := #[] }, none)
-  | ["dump"] => (d, some (dumpSM d.sm))
-  | ["dumpeq"] => (d, some (dumpEq d.sm))
-  | ["bloch", N, kmax] => (d, some (blochDump d N.toNat! kmax.toNat!))
+      ({ d with sm := s, sm0 := s, ops := #[], ds := ⟨s, [], []⟩, dsm := ⟨s, [], []⟩, js := liftSM s }, [])
+  | ["dump"] => (d, [dumpSM d.sm])
+  | ["dumpeq"] => (d, [dumpEq d.sm])
+  | ["dumpd"] => (d, dumpDiff d)
+  | ["dumpj"] => (d, dumpJets d)
+  | ["bloch", N, kmax] => (d, [blochDump d N.toNat! kmax.toNat!])
   | _ =>
-    match parseOp toks with
-    | some op => ({ d with sm := applyOp d.opts op d.sm, ops := d.ops.push op }, none)
-    | none => (d, some s!"bad-op {line}")
+    let segs := splitSegs toks
+    match parseOp (segs.getD 0 []) with
+    | some op =>
+      let dc := parseDecl (segs.drop 1)
+      let ds' := callOp d.opts op dc d.ds
+      let dsm' := callOp d.opts op dc d.dsm true
+      let js' := applyOp d.opts (liftOp d.vars dc op) d.js
+      ({ d with sm := applyOp d.opts op d.sm, ops := d.ops.push op, ds := ds', dsm := dsm', js := js' }, [])
+    | none => (d, [s!"bad-op {line}"])
 
 partial def loop (h : IO.FS.Stream) (out : IO.FS.Stream) (d : DState) : IO Unit := do
   let line ← h.getLine
   if line.isEmpty then return ()
   let (d', o) := step d line
-  match o with
-  | some s => out.putStrLn s
-  | none => pure ()
+  for s in o do out.putStrLn s
   loop h out d'
 
 def main : IO Unit := do
